@@ -1554,7 +1554,7 @@ M("C09", "share-is-area-not-fraction", PARF,
   '''greenhouses.greenhouse_fraction_area''', '''greenhouse_area''', "C09.GH")
 M("C09", "share-divided-by-wrong-area", GHF,
   '''        self.greenhouse_fraction_area = greenhouse_area / self.TOTAL_CROP_AREA''',
-  '''        self.greenhouse_fraction_area = greenhouse_area / GREENHOUSE_LIMIT_AREA''', "C09.GH")
+  '''        self.greenhouse_fraction_area = greenhouse_area / GREENHOUSE_LIMIT_AREA''', "C09.AREA")
 M("C09", "greenhouse-ramp-overshoots", GHF,
   '''                        np.linspace(0, GREENHOUSE_LIMIT_AREA, 37),''', '''                        np.linspace(0, GREENHOUSE_LIMIT_AREA * 1.5, 37),''', "C09.AREA")
 M("C09", "greenhouse-area-without-leadin", GHF,
@@ -1594,6 +1594,16 @@ M("C09", "R-else-arm-float-zeros", OCF,
         self.production = Food(''', None)
 
 
+M("C09", "expanded-area-ramp-starts-below-one", OCF,
+  '''            linspace[i] = 1 + (i - N) * increment''', '''            linspace[i] = (i - N) * increment''', "C09.RELOC")
+M("C09", "expanded-area-divides", OCF,
+  '''            self.KCALS_GROWN[i] = self.KCALS_GROWN[i] * linspace[i]''', '''            self.KCALS_GROWN[i] = self.KCALS_GROWN[i] / linspace[i]''', "C09.RELOC")
+M("C09", "R-expanded-area-names", OCF,
+  '''        increment = (max_value - 1) / (total_months - N)''', '''        span = total_months - N
+        increment = (max_value - 1) / span''', None)
+M("C09", "R-production-factor-first", OCF,
+  '''            kcals=np.array(crops_produced) * (1 - self.CROP_WASTE_DISTRIBUTION / 100),''',
+  '''            kcals=(1 - self.CROP_WASTE_DISTRIBUTION / 100) * np.array(crops_produced),''', None)
 # ---------------------------------------------------------------------------- added after the sub-agent seeded defects
 M("C18", "cap-uses-max", PARF, '        if (\n            interpreted_results_round1.percent_people_fed\n            > MINIMUM_PERCENT_FED_BEFORE_NONHUMAN_CONSUMPTION_ALLOWED\n        ):\n            kcals_daily_maximum = (\n                constants_inputs["NUTRITION"]["KCALS_DAILY"]\n                * fraction_to_feed_people_first\n            )\n\n        else:\n            kcals_daily_maximum = constants_inputs["NUTRITION"]["KCALS_DAILY"] * (\n                interpreted_results_round1.percent_people_fed / 100\n            )\n', '        kcals_daily_maximum = constants_inputs["NUTRITION"]["KCALS_DAILY"] * max(\n            fraction_to_feed_people_first,\n            interpreted_results_round1.percent_people_fed / 100,\n        )\n', "C18.CAP")
 M("C18", "R-cap-written-with-min", PARF, '        if (\n            interpreted_results_round1.percent_people_fed\n            > MINIMUM_PERCENT_FED_BEFORE_NONHUMAN_CONSUMPTION_ALLOWED\n        ):\n            kcals_daily_maximum = (\n                constants_inputs["NUTRITION"]["KCALS_DAILY"]\n                * fraction_to_feed_people_first\n            )\n\n        else:\n            kcals_daily_maximum = constants_inputs["NUTRITION"]["KCALS_DAILY"] * (\n                interpreted_results_round1.percent_people_fed / 100\n            )\n', '        kcals_daily_maximum = constants_inputs["NUTRITION"]["KCALS_DAILY"] * min(\n            fraction_to_feed_people_first,\n            interpreted_results_round1.percent_people_fed / 100,\n        )\n', None)
